@@ -19,7 +19,8 @@ CLAIMED.update({
            'Decides the structural necessary conditions of the round trip: PKCS#7 pad write for every residue, end-of-body table '
            '(FULL/FINAL/NODATA) for encrypt and decrypt over r=0, 0<r<sum aligned/unaligned, r=sum, r>sum, non-empty READY buffers, '
            'export size within the buffer under a valid-padding guard, decrypt body offset = writer header length for every T, '
-           'chunk i <-> stream i. Byte equality of decrypt(encrypt(P)) is not computed.'),
+           'chunk i <-> stream i, the same constant stream count for the encrypting and the decrypting runner, one stream object per worker, '
+           'mode steps = SP 800-38A and block functions = FIPS-197 (term conformance). Byte equality of decrypt(encrypt(P)) is not computed.'),
  'C02': _c('abstract interpretation of execute_encrypt from a constructor-built object; ordered stream-access log vs documented layout',
            'Decides, per thread count, that the bytes written before the body tile [0,48+20T) exactly as documented (magic, mode bytes, '
            '38 zeros, T 20-byte IV slots of one array), the body starts at 48+20T, the tag goes to offset 10 last, the IV chain is '
@@ -29,8 +30,10 @@ CLAIMED.update({
            'Decides the monitor discipline that excludes lost wake-ups (token written only under its mutex; every wait in a re-testing '
            'loop with computed leave set; notify_all on every condition variable whose leave set contains the written value before the '
            'mutex is released; leave sets reachable), no READY buffer without blocks, workers exit only on INV, every thread joined for '
-           'T=1..16, I/O loop exits only with live counter 0, live counter tied to INV, no load after end of input. '
-           'Liveness under fairness as such is not decided.'),
+           'T=1..16, I/O loop exits only with live counter 0, live counter tied to INV, no load after end of input; no loop of either '
+           'role can return to the same state with every decision closed (a failing read is one of the input classes), neither role '
+           'ends the process on a path where every library call succeeded, and a further operation in the same process finds the counter '
+           'at 0 and the loop state re-established. Liveness under fairness as such is not decided.'),
  'C05': _c('provenance by named file-offset symbols in an abstract run of verify+decrypt; control-dependence gate; comparison completeness',
            'Decides that every file-derived scalar steering processing after the gate lies in the hashed range or is pinned to a constant '
            '(the cipher-mode byte at offset 8 is the recorded known finding), accepted paths hash [48,EOF), output effects are gated on '
@@ -53,7 +56,8 @@ CLAIMED.update({
            'Decides that the tag write is the single and last output write after the body, preceded by the hash over [48,EOF), and that '
            'every earlier write into [10,48) is zero, so every proper prefix of the write sequence carries a zero/partial tag; with the '
            'complete compare this leaves only the cryptographic assumption. The ordering rules are evaluated on every successful path, also '
-           'when the header layout rules fail.'),
+           'when the header layout rules fail; no path that reports failure (process-wide flags set by signal handlers are unknowns) has '
+           'written a tag; the output file is created or truncated when it is opened.'),
  'C14': _c('abstract interpretation: ownership typestate with inferred rely/guarantee, per thread role',
            'Decides that every buffer field access in either role happens under exclusive ownership of the same index, token writes are '
            'under the mutex, INV is terminal, worker i uses buffer i only, the cursor is monotone and hand-back happens only when consumed; two '
@@ -62,7 +66,8 @@ CLAIMED.update({
  'C18': _c('abstract interpretation: IV pointer reaching each stream constructor vs header IV slots; seed flow',
            'Decides which IV slot reaches stream k (known finding: every stream gets slot 0), that the array is the one stored in / read '
            'from the header, that the chain starts from the hash of the whole seed and links slot i-1 to slot i, and that the hash used for it is '
-           'SHA-1 (compress conformance, padding for every residue, driver unit sequence), so that every seed byte reaches IV[0].'),
+           'SHA-1 (compress conformance, padding for every residue, driver unit sequence), so that every seed byte reaches IV[0]; the CTR counter is a '
+           '128-bit increment and the mode steps conform; every rand() that fills the seed comes after srand() in the same parse.'),
 })
 CLAIMED.update({
  'C07': dict(category='proof', technique='term conformance of the compress functions + symbolic finaliser for all residues + induction over the driver loop + object simulation',
@@ -82,7 +87,7 @@ CLAIMED.update({
              text='For all ten factory products one runcry step equals the SP 800-38A step as terms over free block/iv bytes (E/D uninterpreted); the '
                   'step touches only block, iv and cipher scratch (no retained pointer, no other member), so the stream claim follows by induction; '
                   'reference decrypt inverts reference encrypt; the CTR counter is a 128-bit big-endian +1 over all 17 carry classes; two streams of '
-                  'one factory share no mutable storage.',
+                  'one factory share no mutable storage; the class the factory builds does not depend on earlier calls.',
              note='Trusted: as C09, plus spec_step in rules/mode_rules.py written from SP 800-38A 6.1-6.5; decryaes inverts encryaes (C09).'),
  'C11': _c('abstract interpretation of verify/decrypt with unknown file bytes and short reads; pipeline arithmetic; finaliser extents for all residues',
            'Decides: no NULL factory result is dereferenced on any path steered by file bytes, the cipher selector reaching the stream factory is '
@@ -92,7 +97,8 @@ CLAIMED.update({
  'C15': _c('acquire/release pairing on all abstract paths + inventory of mutable statics with a use classification',
            'Decides: singleton released and live counter 0 at every exit of every operation, parser globals reset before each parse, name tables '
            'and default settings never written, any other mutable object with static storage is never read by an operation, no field of the freshly '
-           'allocated parameter pack is read before it is written, and a second operation enters the I/O loop with the loop state of a first one.'),
+           'allocated parameter pack (nor errno) is read before it is written, getopt is fully re-initialised (optind = 0), a second operation '
+           'enters the I/O loop with the loop state of a first one, and no operation writes the caller\'s key buffer or settings object.'),
  'C16': _c('abstract interpretation with bit-field terms (encoder); exhaustive shape exploration with prefix pruning (validator); bounds at call sites',
            'Decides: tables are RFC 4648; every encoder output position for lengths 0..19 is alphabet[right 6-bit field] with correct padding and '
            'terminator; the validator accepts exactly 22 symbols + "=="; every accepted key decodes to <= 16 bytes inside the call-site buffers; '
